@@ -240,6 +240,7 @@ def gen_invocation(rng: random.Random, files_now: list[str], forced: tuple[str, 
             api["path"] = "-"
             inv["stdin"] = b2j(stdin_doc)
         api["as_path"] = rng.random() < 0.3
+        api["plain_strings"] = rng.random() < 0.4
         inv["api"] = api
     elif form == "api_files":
         kind = rng.choice(["stdout", "inplace", "inplace_nobackup", "err_output_multi", "stdin_single_output"])
@@ -253,6 +254,7 @@ def gen_invocation(rng: random.Random, files_now: list[str], forced: tuple[str, 
         elif kind == "stdin_single_output":
             api["files"], api["output"] = ["-"], "api_files_out.md"
             inv["stdin"] = b2j(stdin_doc)
+        api["plain_strings"] = rng.random() < 0.4
         inv["api"] = api
     elif form == "err_noinput":
         inv["argv"] = opts_argv(rng, o)
@@ -586,393 +588,6 @@ def predict(model: Model, inv: dict[str, Any], M: dict[str, bytes]) -> Pred:
         if p.stdout is None:
             return p
     elif form == "api_file":
-        kind = rng.choice(["stdout_none", "stdout_dash", "output", "inplace", "inplace_nobackup", "stdin_output", "stdin_stdout"])
-        api: dict[str, Any] = {"fn": "reformat_file", "path": f1, "output": None, "inplace": False, "nobackup": False}
-        if kind == "stdout_dash":
-            api["output"] = "-"
-        elif kind == "output":
-            api["output"] = rng.choice(["api_out.md", "gen/api/o.md", f1])
-        elif kind == "inplace":
-            api["inplace"] = True
-        elif kind == "inplace_nobackup":
-            api["inplace"], api["nobackup"] = True, True
-        elif kind == "stdin_output":
-            api["path"], api["output"] = "-", "api_stdin_out.md"
-            inv["stdin"] = b2j(stdin_doc)
-        elif kind == "stdin_stdout":
-            api["path"] = "-"
-            inv["stdin"] = b2j(stdin_doc)
-        api["as_path"] = rng.random() < 0.3
-        inv["api"] = api
-    elif form == "api_files":
-        kind = rng.choice(["stdout", "inplace", "inplace_nobackup", "err_output_multi", "stdin_single_output"])
-        api = {"fn": "reformat_files", "files": several, "output": None, "inplace": False, "nobackup": False}
-        if kind == "inplace":
-            api["inplace"] = True
-        elif kind == "inplace_nobackup":
-            api["inplace"], api["nobackup"] = True, True
-        elif kind == "err_output_multi":
-            api["output"] = rng.choice(["never.md", "newdir3/never.md"])
-        elif kind == "stdin_single_output":
-            api["files"], api["output"] = ["-"], "api_files_out.md"
-            inv["stdin"] = b2j(stdin_doc)
-        inv["api"] = api
-    elif form == "err_noinput":
-        inv["argv"] = opts_argv(rng, o)
-    elif form == "err_auto_noargs":
-        inv["argv"] = ["--auto"] + opts_argv(rng, o, auto=True)
-    elif form == "err_listfiles_noargs":
-        inv["argv"] = ["--list-files"]
-    elif form == "err_o_multi":
-        inv["argv"] = place(["-o", rng.choice(["never.md", "newdir/never.md", "x/y/never.md"])], several if len(several) > 1 else several + several)
-    elif form == "err_inplace_stdin":
-        inv["argv"] = place(["-i"] + (["--nobackup"] if rng.random() < 0.5 else []) + (["-o", rng.choice(["o.md", "newdir2/o.md"])] if rng.random() < 0.4 else []), ["-"])
-        inv["stdin"] = b2j(stdin_doc)
-    elif form == "err_inplace_stdin_first":
-        inv["argv"] = place(["-i"] + (["--nobackup"] if rng.random() < 0.5 else []), ["-", f1])
-        inv["stdin"] = b2j(stdin_doc)
-    elif form == "err_inplace_file_then_stdin":
-        inv["argv"] = place(["-i"] + (["--nobackup"] if rng.random() < 0.5 else []), [f1, "-"])
-        inv["stdin"] = b2j(stdin_doc)
-    elif form == "dontcare_o_single":
-        inv["argv"] = place(["-o", "single_out.md"], [f1])
-        inv["files"] = [f1]
-        inv["output"] = "single_out.md"
-    elif form == "mixed_stdin_file":
-        args = ["-", f1] if rng.random() < 0.5 else [f1, "-"]
-        inv["argv"] = place([], args)
-        inv["args"] = args
-        inv["stdin"] = b2j(stdin_doc)
-    return inv
-
-
-def gen_knobs(rng: random.Random) -> dict[str, Any]:
-    return {
-        "bufsize": rng.choice([1, 7, 64, 4096, 8192, 8192, 65536]),
-        "chunking": rng.choice(["none", "random", "random", "byte"]),
-        "eintr": rng.choice([0.0, 0.0, 0.1, 0.3]),
-        "chunk_seed": rng.getrandbits(32),
-        "listing": rng.choice(["shuffle", "shuffle", "reverse", "native"]),
-        "list_seed": rng.getrandbits(32),
-    }
-
-
-GEN_TAKES_INDEX = True
-_CELL_FORMS = ["stdout", "multi_stdout", "stdin_stdout", "stdin_o", "inplace", "inplace_nobackup", "multi_inplace", "multi_inplace_nb", "auto", "auto_several"]
-
-
-def systematic_point(index: int) -> tuple[str, dict[str, Any]]:
-    """Thorough tier: run index -> one point of the property's finite option space (complete sweep)."""
-    v = index % SPACE_OPTION_VECTORS
-    cell = (index // SPACE_OPTION_VECTORS) % len(_CELL_FORMS)
-    o: dict[str, Any] = {}
-    o["width"] = corpus.WIDTHS[v % len(corpus.WIDTHS)]
-    v //= len(corpus.WIDTHS)
-    for name in ("plaintext", "semantic", "cleanups", "smartquotes", "ellipses"):
-        o[name] = bool(v & 1)
-        v >>= 1
-    o["list_spacing"] = corpus.LIST_SPACINGS[v % len(corpus.LIST_SPACINGS)]
-    return _CELL_FORMS[cell], o
-
-
-def gen_case(run_seed: int, tier: str, index: int | None = None) -> dict[str, Any]:
-    w = sub_rng(run_seed, "workload")
-    names = list(DOC_NAMES)
-    w.shuffle(names)
-    names = sorted(names[: w.randint(2, 5) if w.random() < 0.9 else w.randint(6, 9)])
-    tree: dict[str, Any] = {n: {"f": b2j(gen_doc_bytes(w))} for n in names}
-    for n in names:
-        # some documents start out as fixed points of the first invocation's formatting (the
-        # "nothing to change" path of an implementation), with LF or CRLF line endings
-        r = w.random()
-        if r < 0.12:
-            tree[n]["pre"] = "lf"
-        elif r < 0.24:
-            tree[n]["pre"] = "crlf"
-    if w.random() < 0.4:
-        tree["keep.txt"] = {"f": b2j(b"not markdown\n")}
-    k = sub_rng(run_seed, "knobs")
-    invs = []
-    for j in range(w.choice([1, 2, 3, 3, 4, 6])):
-        forced = systematic_point(index) if (tier == "thorough" and index is not None and j == 0) else None
-        inv = gen_invocation(w, names, forced)
-        inv["knobs"] = gen_knobs(k)
-        inv["uid_seed"] = k.getrandbits(32)
-        invs.append(inv)
-    return {"check": CHECK, "run_seed": run_seed, "tier": tier, "tree": tree, "history": invs}
-
-
-# ---------------------------------------------------------------------------------------------
-# the model
-
-
-class Model:
-    def __init__(self) -> None:
-        self.memo: dict[str, Any] = {}
-
-    def fmt_text(self, text: str, o: dict[str, Any]) -> str:
-        import flowmark
-        from flowmark.formats.flowmark_markdown import ListSpacing
-
-        key = digest([text, o], 20)
-        if key not in self.memo:
-            try:
-                self.memo[key] = flowmark.reformat_text(
-                    text, width=o["width"], plaintext=o["plaintext"], semantic=o["semantic"], cleanups=o["cleanups"],
-                    smartquotes=o["smartquotes"], ellipses=o["ellipses"], list_spacing=ListSpacing(o["list_spacing"]),
-                )
-            except Exception as e:  # noqa: BLE001
-                self.memo[key] = e
-        r = self.memo[key]
-        if isinstance(r, Exception):
-            raise r
-        return r
-
-    def fmt_file(self, data: bytes, o: dict[str, Any]) -> bytes:
-        """What the file entry points must produce for a file holding `data` (raises on failure)."""
-        text = data.decode("utf-8")  # strict
-        text = text.replace("\r\n", "\n").replace("\r", "\n")  # universal newlines
-        return self.fmt_text(text, o).encode("utf-8")
-
-    def fmt_stdin(self, data: bytes, o: dict[str, Any]) -> str:
-        text = data.decode("utf-8", "surrogateescape")  # no newline translation on POSIX stdin
-        return self.fmt_text(text, o)
-
-    def discriminating(self, data: bytes, o: dict[str, Any]) -> bool:
-        """Does flipping any single option coordinate change the output for this document?"""
-        try:
-            base = self.fmt_file(data, o)
-        except Exception:  # noqa: BLE001
-            return False
-        if o["plaintext"]:
-            alts = [dict(o, plaintext=False), dict(o, width=20 if o["width"] != 20 else 40)]
-        else:
-            alts = [dict(o, **{k: not o[k]}) for k in ("plaintext", "semantic", "cleanups", "smartquotes", "ellipses")]
-            alts.append(dict(o, width=20 if o["width"] != 20 else 40))
-            alts += [dict(o, list_spacing=ls) for ls in corpus.LIST_SPACINGS if ls != o["list_spacing"]]
-        try:
-            return all(self.fmt_file(data, a) != base for a in alts)
-        except Exception:  # noqa: BLE001
-            return False
-
-
-def partial_match(model: Model, pred: Pred, stdin: bytes, exit_class: str, stdout: bytes, after: dict[str, bytes]) -> bool:
-    """Acceptance of a failing run over several inputs: non-zero exit; every input individually
-    either untouched or holding exactly the result it would get alone; nothing else changes."""
-    pt = pred.partial
-    assert pt is not None
-    if exit_class != "nonzero":
-        return False
-    M0: dict[str, bytes] = pt["M0"]
-    files = [f for f in pt["files"]]
-    alone: dict[str, bytes | None] = {}
-    for f in files:
-        if f == "-" or f not in M0:
-            continue
-        try:
-            alone[f] = model.fmt_file(M0[f], pt["o"])
-        except Exception:  # noqa: BLE001
-            alone[f] = None
-    if pt["mode"] == "stdout":
-        if after != M0:
-            return False
-        pieces: list[bytes] = []
-        for f in files:
-            if f == "-":
-                try:
-                    pieces.append(model.fmt_stdin(stdin, pt["o"]).encode("utf-8", "surrogateescape"))
-                except Exception:  # noqa: BLE001
-                    pieces.append(b"")
-            else:
-                pieces.append(alone.get(f) or b"")
-        acc = b""
-        ok_outs = {acc}
-        for pc in pieces:
-            acc += pc
-            ok_outs.add(acc)
-        return stdout in ok_outs
-    if stdout:
-        return False
-    for path in set(M0) | set(after):
-        cur = after.get(path)
-        if path in alone:
-            if cur != M0[path] and not (alone[path] is not None and cur == alone[path]):
-                return False
-            if cur != M0[path] and not pt["nobackup"] and after.get(path + ".orig") != M0[path]:
-                return False
-        elif path.endswith(".orig") and path[: -len(".orig")] in alone:
-            if cur != M0.get(path) and cur != M0[path[: -len(".orig")]]:
-                return False
-        elif cur != M0.get(path):
-            return False
-    return True
-
-
-def eff_opts(inv: dict[str, Any], auto: bool) -> dict[str, Any]:
-    o = dict(inv["opts"])
-    if auto:
-        o.update(corpus.AUTO_OPTS)
-    return o
-
-
-def md_files_under(M: dict[str, bytes], d: str, extra_ext: tuple[str, ...] = ()) -> list[str]:
-    pre = "" if d in (".", "") else d.rstrip("/") + "/"
-    return [p for p in M if p.startswith(pre) and p.endswith((".md",) + extra_ext)]
-
-
-def glob_model(M: dict[str, bytes], pat: str) -> list[str]:
-    if pat == "*.md":
-        return [p for p in M if "/" not in p and p.endswith(".md")]
-    if pat == "**/*.md":
-        return [p for p in M if p.endswith(".md")]
-    if pat == "docs/*.md":
-        return [p for p in M if p.startswith("docs/") and p.count("/") == 1 and p.endswith(".md")]
-    raise ValueError(pat)
-
-
-def path_key(p: str) -> tuple[str, ...]:
-    return tuple(p.split("/"))  # pathlib orders by parts
-
-
-class Pred:
-    def __init__(self) -> None:
-        self.exit = "0"  # "0" | "nonzero" | "any"
-        self.stdout: bytes | None = b""
-        self.M: dict[str, bytes] = {}
-        self.no_write = False
-        self.alt: "Pred | None" = None  # a second acceptable outcome (don't-care forms)
-        self.formatted: list[tuple[bytes, dict[str, Any]]] = []
-        # a run over several inputs in which one input fails: which of the other inputs have
-        # been processed when the run stops is not fixed by the property (one by one, all-or-
-        # nothing in two phases and keep-going are all legal); see partial_match()
-        self.partial: dict[str, Any] | None = None
-
-
-def predict(model: Model, inv: dict[str, Any], M: dict[str, bytes]) -> Pred:
-    p = Pred()
-    p.M = dict(M)
-    form = inv["form"]
-    stdin = j2b(inv.get("stdin")) or b""
-    out = bytearray()
-
-    def do_files(files: list[str], o: dict[str, Any], mode: str, nobackup: bool) -> None:
-        """files processed one by one; stops at the first failure (exit nonzero)."""
-        for f in files:
-            try:
-                if f == "-":
-                    if mode != "stdout":
-                        raise ValueError("inplace with stdin")
-                    res_s = model.fmt_stdin(stdin, o)
-                    out.extend(res_s.encode("utf-8", "surrogateescape"))
-                    p.formatted.append((stdin, o))
-                    continue
-                if f not in p.M:
-                    raise FileNotFoundError(f)
-                res = model.fmt_file(p.M[f], o)
-                p.formatted.append((p.M[f], o))
-            except Exception:  # noqa: BLE001
-                p.exit = "nonzero"
-                if len(files) > 1:
-                    p.partial = {"files": list(files), "o": o, "mode": mode, "nobackup": nobackup, "M0": dict(M)}
-                return
-            if mode == "stdout":
-                out.extend(res)
-            else:
-                if not nobackup:
-                    p.M[f + ".orig"] = p.M[f]
-                p.M[f] = res
-
-    def cli_files(args: list[str]) -> list[str] | None:
-        """
-        The inputs the CLI processes, in order: arguments are passed through as given unless one of
-        them is a directory or contains a glob character - then ALL of them go through the file
-        resolver (existing file named explicitly: itself, even if its name reads as a pattern;
-        result absolute, de-duplicated, sorted, '-' first). None: the resolver raises first.
-        """
-        nonstd = [a for a in args if a != "-"]
-
-        def is_dir(a: str) -> bool:
-            return a == "." or any(k.startswith(a.rstrip("/") + "/") for k in M)
-
-        if not any(is_dir(a) or any(c in a for c in "*?[") for a in nonstd):
-            return list(args)
-        found: set[str] = set()
-        for a in nonstd:
-            if a in M:
-                found.add(a)
-            elif any(c in a for c in "*?["):
-                found.update(glob_model(M, a))
-            elif is_dir(a):
-                found.update(md_files_under(M, a, (".txt",) if inv.get("extend_include") else ()))
-            else:
-                return None
-        if inv.get("max_size"):
-            found = {f for f in found if len(M[f]) <= inv["max_size"]}
-        files = sorted(found, key=path_key)
-        if "-" in args:
-            files.insert(0, "-")
-        return files
-
-    def run_cli(args: list[str], o: dict[str, Any], mode: str, nobackup: bool) -> None:
-        files = cli_files(args)
-        if files is None:
-            p.exit = "nonzero"  # resolver: path not found -> FileNotFoundError before anything is formatted
-            p.stdout = None
-            return
-        if not files and mode != "stdout":
-            return
-        do_files(files, o, mode, nobackup)
-
-    if form in ("stdout", "multi_stdout"):
-        run_cli(inv["files"], eff_opts(inv, False), "stdout", True)
-    elif form in ("inplace", "inplace_nobackup"):
-        run_cli(inv["files"], eff_opts(inv, False), "inplace", form.endswith("nobackup"))
-    elif form == "multi_inplace":
-        run_cli(inv["files"], eff_opts(inv, False), "inplace", inv["nobackup"])
-    elif form == "auto":
-        run_cli(inv["files"], eff_opts(inv, True), "inplace", True)
-    elif form == "stdin_stdout":
-        do_files(["-"], eff_opts(inv, False), "stdout", True)
-    elif form == "mixed_stdin_file":
-        run_cli(inv["args"], eff_opts(inv, False), "stdout", True)
-    elif form == "stdin_o":
-        o = eff_opts(inv, False)
-        try:
-            res_s = model.fmt_stdin(stdin, o)
-            p.M[inv["output"]] = res_s.encode("utf-8")  # files are written as strict UTF-8
-            p.formatted.append((stdin, o))
-        except Exception:  # noqa: BLE001
-            p.exit = "nonzero"
-    elif form in ("dir", "glob"):
-        sub = inv["sub"]
-        o = eff_opts(inv, sub == "auto")
-        found: set[str] = set()
-
-        def is_dir(a: str) -> bool:
-            return a == "." or any(k.startswith(a.rstrip("/") + "/") for k in M)
-
-        if not any(is_dir(a) or any(c in a for c in "*?[") for a in inv["args"]):
-            # nothing needs resolution: arguments are passed through and processed one by one
-            # (a missing path fails when its turn comes)
-            do_files(list(inv["args"]), o, "stdout" if sub == "stdout" else "inplace", sub in ("inplace_nobackup", "auto"))
-            p.stdout = bytes(out)
-            return p
-        for a in inv["args"]:
-            if a in M:
-                found.add(a)
-            elif any(c in a for c in "*?["):
-                found.update(glob_model(M, a))
-            elif is_dir(a):
-                found.update(md_files_under(M, a, (".txt",) if inv.get("extend_include") else ()))
-            else:
-                p.exit = "nonzero"  # resolver: path not found -> FileNotFoundError before anything is formatted
-                p.stdout = None
-                return p
-        if inv.get("max_size"):
-            found = {f for f in found if len(M[f]) <= inv["max_size"]}
-        files = sorted(found, key=path_key)
-        do_files(files, o, "stdout" if sub == "stdout" else "inplace", sub in ("inplace_nobackup", "auto"))
-    elif form == "api_file":
         api = inv["api"]
         o = eff_opts(inv, False)
         if api["inplace"]:
@@ -1065,7 +680,8 @@ def make_fn(inv: dict[str, Any]) -> Any:
         from flowmark.reformat_api import reformat_files
 
         o = dict(o0)
-        o["list_spacing"] = ListSpacing(o["list_spacing"])
+        if not api.get("plain_strings"):
+            o["list_spacing"] = ListSpacing(o["list_spacing"])  # (else: the documented plain string "preserve"/"loose"/"tight")
         if api["fn"] == "reformat_file":
             pth, outp = api["path"], api["output"]
             if api.get("as_path"):  # pathlib.Path objects instead of str (except the '-' markers)
@@ -1212,6 +828,27 @@ def _run_case(case: dict[str, Any], scratch: str, want_trace: bool) -> dict[str,
             counters["discriminating_invocations"] += 1
         wrote = [o.rec() for o in ip.log if o.op in simproc.MUTATING and (o.outcome == "ok" or "crash" in o.outcome)]
 
+        def same_tree(got: dict[str, bytes], want: dict[str, bytes], before: dict[str, bytes]) -> bool:
+            """Equal trees - except that a backup of a file whose bytes do not change may be
+            skipped (the property fixes the formatted bytes, not whether an unchanged file is
+            backed up): FILE.orig may then keep its previous state."""
+            if got == want:
+                return True
+            for path in set(got) | set(want):
+                if got.get(path) == want.get(path):
+                    continue
+                base = path[: -len(".orig")] if path.endswith(".orig") else None
+                if base is not None and base in before and got.get(base) == want.get(base):
+                    # the file itself is right; its backup may legitimately be: skipped when a
+                    # pass changes nothing (previous .orig state kept), or the content the file
+                    # had when the invocation started (a file named twice: second pass is a no-op)
+                    if got.get(path) == before.get(path) and want.get(base) == before.get(base):
+                        continue
+                    if got.get(path) == before.get(base):
+                        continue
+                return False
+            return True
+
         def matches(pr: Pred) -> str | None:
             if pr.exit != "any" and res.exit_class() != pr.exit:
                 return "exit-mismatch"
@@ -1219,7 +856,7 @@ def _run_case(case: dict[str, Any], scratch: str, want_trace: bool) -> dict[str,
                 return "usage-error-wrote"
             if pr.stdout is not None and res.stdout != pr.stdout:
                 return "stdout-mismatch"
-            if after != pr.M:
+            if not same_tree(after, pr.M, M):
                 return "tree-mismatch"
             if dirs_now != dirs_before | implied_dirs(pr.M):
                 return "usage-error-wrote" if pr.no_write else "stray-directory"
